@@ -28,3 +28,8 @@ func init() {
 		"Structural necessary condition of C19 (absence of shared mutable library state): GLOBALS enumerates every package-level variable and shows that no function outside the package initializer and the registration API stores to one, updates or deletes in a map reachable from one, or stores through a shared registry row; NOREFLECT shows the library starts no goroutine and uses no unsafe. Every statement's AST, plan and ExecuteCtx are allocated by its own NewOptimizer/NewExecuteCtx calls, so statements share only read-only tables and the caller's Storage.",
 		"'Each returns exactly the result it returns alone' beyond absence of shared written state needs execution under a scheduler; the caller's Storage is out of scope.")
 }
+
+func init() {
+	propTable["C19"].Rules = []string{"GLOBALS"}
+	prop("TMP-PLANS", []string{"FILTERED", "NOROWDROP", "ADJUSTCALL", "MGETSORT", "GETNIL", "BYTESFRESH", "CACHECOPY"}, "temporary grouping while rules are being built", "")
+}
